@@ -64,9 +64,35 @@ func checkC16(p *Prog, r *Report) {
 			b, ok2 := constString(c.Common().Args[2])
 			if ok1 && ok2 {
 				goPairs = append(goPairs, pair{a, b})
-			} else {
-				rTab.Unproven(fnName(fp)+":ReplaceAll", posOf(c), "substitution with non-constant operands")
+				return
 			}
+			/* One substitution per row of a fixed table. */
+			ra, okA := cellReadOf(c.Common().Args[1])
+			rb, okB := cellReadOf(c.Common().Args[2])
+			if okA && okB && ra.Index == rb.Index && ra.Field != rb.Field {
+				ta, tb := p.fixedTableOf(ra.Container), p.fixedTableOf(rb.Container)
+				if nil != ta && nil != tb && ta.N == tb.N && rangesOverAll(ra.Index, ra.Container, ta.N) {
+					ca, okCa := ta.Column(ra.Field)
+					cb, okCb := tb.Column(rb.Field)
+					if okCa && okCb {
+						good := true
+						var prs []pair
+						for k := range ca {
+							x, okx := constString(ca[k])
+							y, oky := constString(cb[k])
+							if !okx || !oky {
+								good = false
+							}
+							prs = append(prs, pair{x, y})
+						}
+						if good && sameTable(ra.Container, rb.Container) {
+							goPairs = append(goPairs, prs...)
+							return
+						}
+					}
+				}
+			}
+			rTab.Unproven(fnName(fp)+":ReplaceAll", posOf(c), "substitution with non-constant operands")
 		case "(*strings.Replacer).Replace", "(*strings.Replacer).WriteString":
 			/* A replacer built once from constant pairs. */
 			prs, ok := replacerPairs(p, c.Common().Args[0])
@@ -77,7 +103,19 @@ func checkC16(p *Prog, r *Report) {
 			for k := 0; k+1 < len(prs); k += 2 {
 				goPairs = append(goPairs, pair{prs[k], prs[k+1]})
 			}
-		case "strings.Replace", "strings.Map":
+		case "strings.Map", "bytes.Map":
+			/* A character map: named characters to their stand-ins,
+			everything else unchanged. */
+			mf, _ := closureOf(c.Common().Args[0])
+			prs, why := runeMapPairs(mf)
+			if "" != why {
+				rTab.Unproven(fnName(fp)+":"+calleeName(c.Common()), posOf(c), "character map not understood: %s", why)
+				return
+			}
+			for _, pr := range prs {
+				goPairs = append(goPairs, pair{string(rune(pr[0])), string(rune(pr[1]))})
+			}
+		case "strings.Replace":
 			rTab.Unproven(fnName(fp)+":"+calleeName(c.Common()), posOf(c), "substitution idiom not understood")
 		}
 		if sc := c.Common().StaticCallee(); nil != sc && "AppendEncode" == sc.Name() {
@@ -843,4 +881,89 @@ func isNotCommentPredicate(f *ssa.Function) bool {
 		}
 	})
 	return ok && 1 == n
+}
+
+// sameTable: two containers of cell reads are one table.
+func sameTable(a, b ssa.Value) bool {
+	ra, rb := resolveCell(a), resolveCell(b)
+	if ra == rb {
+		return true
+	}
+	/* Two loads of one package-level variable, or two copies of one array. */
+	la, ok1 := ra.(*ssa.UnOp)
+	lb, ok2 := rb.(*ssa.UnOp)
+	return ok1 && ok2 && token.MUL == la.Op && token.MUL == lb.Op && la.X == lb.X
+}
+
+// runeMapPairs reads a func(rune) rune which maps some constant characters to
+// constant characters and returns every other character unchanged.
+func runeMapPairs(f *ssa.Function) (pairs [][2]int64, why string) {
+	if nil == f || 1 != len(f.Params) || nil == f.Blocks {
+		return nil, "the mapping function is not a function literal or named function with one parameter"
+	}
+	r := ssa.Value(f.Params[0])
+	returnsFrom := func(start *ssa.BasicBlock, noEdges map[Edge]bool) []*ssa.Return {
+		var out []*ssa.Return
+		seen := map[*ssa.BasicBlock]bool{}
+		var walk func(b *ssa.BasicBlock)
+		walk = func(b *ssa.BasicBlock) {
+			if seen[b] {
+				return
+			}
+			seen[b] = true
+			for _, i := range b.Instrs {
+				if ret, ok := i.(*ssa.Return); ok {
+					out = append(out, ret)
+				}
+			}
+			for _, sc := range b.Succs {
+				if !noEdges[Edge{b.Index, sc.Index}] {
+					walk(sc)
+				}
+			}
+		}
+		walk(start)
+		return out
+	}
+	trueEdges := map[Edge]bool{}
+	for _, b := range f.Blocks {
+		ifi := blockIf(b)
+		if nil == ifi {
+			continue
+		}
+		dc := decodeCond(ifi.Cond)
+		if dc.X != r || nil == dc.Y {
+			return nil, "a branch of the mapping function tests something other than the character against a constant"
+		}
+		from, ok := constInt(dc.Y)
+		if !ok {
+			return nil, "the character is compared with a non-constant"
+		}
+		k := 1
+		if dc.Eq {
+			k = 0
+		}
+		trueEdges[Edge{b.Index, b.Succs[k].Index}] = true
+		var to int64 = -1
+		for _, ret := range returnsFrom(b.Succs[k], nil) {
+			v, isC := constInt(retVal(ret, 0))
+			if !isC || v < 0 || (-1 != to && v != to) {
+				return nil, "a named character is not mapped to one constant character"
+			}
+			to = v
+		}
+		if to < 0 {
+			return nil, "a named character has no stand-in"
+		}
+		pairs = append(pairs, [2]int64{from, to})
+	}
+	for _, ret := range returnsFrom(f.Blocks[0], trueEdges) {
+		if retVal(ret, 0) != r {
+			return nil, "characters which are not named are not returned unchanged"
+		}
+	}
+	if 0 == len(pairs) {
+		return nil, "no character is mapped"
+	}
+	return pairs, ""
 }
